@@ -582,7 +582,30 @@ func offerScenario(t int, seed int64, slow bool) ([]map[string]any, error) {
 			keyIdx[string(k)] = i
 		}
 		req := &portalwire.OfferRequest{Kind: portalwire.TransientOfferRequestKind, Request: &portalwire.TransientOfferRequest{Contents: entries}}
-		ev := map[string]any{"ev": "of.real", "keys": kf, "expect": expect, "delivered": false, "dkeys": []int{}, "dequal": false, "detail": "", "version": version}
+		// every other scenario the offer is a PERSISTENT one (by key: the contents are read from the offerer's own store when the
+		// ACCEPT arrives) and the offerer no longer holds the LAST key the receiver will accept: the stream then carries an empty
+		// item in that key's place, so that the item count still matches and the other accepted contents arrive under their keys
+		lost := -1
+		if t%2 == 1 {
+			var keys [][]byte
+			if len(expect) >= 2 {
+				lost = expect[len(expect)-1]
+			}
+			for i, en := range entries {
+				keys = append(keys, en.ContentKey)
+				if i == lost {
+					contents[string(en.ContentKey)] = []byte{}
+					continue
+				}
+				cid := sha256.Sum256(en.ContentKey)
+				if err := A.Store.Put(en.ContentKey, cid[:], en.Content); err != nil {
+					return nil, fmt.Errorf("offerer prefill: %w", err)
+				}
+			}
+			req = &portalwire.OfferRequest{Kind: portalwire.PersistOfferRequestKind, Request: &portalwire.PersistOfferRequest{ContentKeys: keys}}
+		}
+		ev := map[string]any{"ev": "of.real", "keys": kf, "expect": expect, "delivered": false, "dkeys": []int{}, "dequal": false, "detail": "", "version": version,
+			"persistent": t%2 == 1, "lost": lost}
 		errCh := make(chan error, 1)
 		go func() {
 			_, err := portalwire.VerifOffer(A.P, B.P.Self(), req, &portalwire.NoPermit{})
